@@ -416,6 +416,20 @@ def rnd_random(I, a, k):
     return v
 
 
+def _clock(name):
+    """time.time / perf_counter / process_time: an abstract clock -- each reading is an arbitrary real not smaller than the
+    previous reading of the same clock (monotone; nothing else is assumed).  Readings are logged in ghost state."""
+    def f(I, a, k):
+        log = I.st.ghost.setdefault('clock:' + name, [])
+        v = _draw(I, 'clock_' + name.replace('.', '_'), 'real')
+        if log:
+            I.st.assume(v.t >= log[-1].t)
+        log.append(v)
+        I.st.assumptions.add('%s is an abstract monotone clock' % name)
+        return v
+    return f
+
+
 def np_random_rand(I, a, k):
     """numpy.random.rand(d0[, d1]): an array of that shape of arbitrary reals in [0, 1) (no distributional claim)"""
     dims = list(a)
@@ -1205,6 +1219,8 @@ def lib_lookup(I, dotted):
         'itertools.chain': Builtin('itertools.chain', it_chain),
         'numpy.allclose': Builtin('numpy.allclose', np_allclose),
         'numpy.prod': Builtin('numpy.prod', np_prod), 'numpy.product': Builtin('numpy.prod', np_prod),
+        'time.time': Builtin('time.time', _clock('time.time')), 'time.perf_counter': Builtin('time.perf_counter', _clock('time.perf_counter')),
+        'time.process_time': Builtin('time.process_time', _clock('time.process_time')),
         'random.random': Builtin('random.random', rnd_random),
         'numpy.random.rand': Builtin('numpy.random.rand', np_random_rand),
         'numpy.random.random': Builtin('numpy.random.random', lambda I_, a, k: np_random_rand(I_, list(a[0]) if a and isinstance(a[0], tuple) else list(a), {})),
